@@ -1,3 +1,4 @@
+pub mod c06;
 pub mod c08;
 pub mod c09;
 pub mod c10;
@@ -7,15 +8,20 @@ pub mod c13;
 pub mod c14;
 pub mod c15;
 pub mod c16;
+pub mod safety;
 
 use crate::engine::PropertyDef;
 
 pub fn all_ids() -> Vec<&'static str> {
-    vec!["C08", "C09", "C10", "C11", "C12", "C13", "C14", "C15", "C16"]
+    vec!["C01", "C02", "C03", "C06", "C08", "C09", "C10", "C11", "C12", "C13", "C14", "C15", "C16", "C18"]
 }
 
 pub fn property(id: &str) -> Option<PropertyDef> {
     match id {
+        "C01" => Some(safety::def_c01()),
+        "C02" => Some(safety::def_c02()),
+        "C03" => Some(safety::def_c03()),
+        "C06" => Some(c06::def()),
         "C08" => Some(c08::def()),
         "C09" => Some(c09::def()),
         "C10" => Some(c10::def()),
@@ -25,6 +31,7 @@ pub fn property(id: &str) -> Option<PropertyDef> {
         "C14" => Some(c14::def()),
         "C15" => Some(c15::def()),
         "C16" => Some(c16::def()),
+        "C18" => Some(safety::def_c18()),
         _ => None,
     }
 }
